@@ -357,8 +357,7 @@ func main() {
 	}
 	stats, err := drv.ExploreAll(factory, plans, time.Now().Add(10*time.Minute))
 	if err != nil {
-		fmt.Println("INFRA:", err)
-		os.Exit(2)
+		drv.InfraExit("C15", factory, stats, err, 3000)
 	}
 	var execs int64
 	for _, st := range stats {
